@@ -107,6 +107,8 @@ MUTATORS = {
         ("environment stored without its exponent", r"quimb/tensor/tn2d/core\.py$", r"^(\s+)tn_env_i\.exponent = tn\.exponent - exponent0\s*$", None),
         ("sites via a set", r"quimb/tensor/tnag/core\.py$", r"^(\s+)k_inds = tuple\(map\(self\.site_ind, keep\)\)\s*$", r"\1keep = frozenset(keep)\n\1k_inds = tuple(map(self.site_ind, keep))"),
         ("cache key without where", r"quimb/tensor/tnag/core\.py$", r"^(\s+)info\[\"expecs\"\]\[loop, where\] = expec_loop, norm_loop\s*$", r'\1info["expecs"][loop] = expec_loop, norm_loop'),
+        ("cluster forgets exponent", r"quimb/tensor/tnag/core\.py$", r"^(\s+)k\.exponent = self\.exponent\s*$", None),
+        ("unnormalised value not rescaled", r"quimb/tensor/tn1d/core\.py$", r"^(\s+)(rho|x) = (rho|x) \* 10 \*\* \(2 \* self\.exponent\)\s*$", r"\1pass"),
         ("drop rehearse", r"quimb/tensor/(tnag/core|tn1d/core|tn2d/core|tn3d/core)\.py$", r"^(\s+)rehearse=rehearse,\s*$", None),
     ],
     "C14": [
